@@ -117,11 +117,15 @@ Definition negotiate (discovery : bool) (outs : list outcome) : option choice :=
    nothing is shared between concurrent calls except the cell self._api_versions.
      Call id           a get_api_version call begins (a Producer batch, a Consumer's first fetch, ...)
      Reply id outcome  the ApiVersions request of call [id] completes
+     Reset             cached metadata is dropped (after a failed send, on request, at close)
    The FIRST lookup to finish decides (fixes 276cfa2, 8e462bd): client.py:824-828 stores an answer (table, or 0 for
    an answer carrying an error code) only while the cell is still None; client.py:822 re-tests `_api_versions is None`
    after a KafkaUnavailableError; client.py:834-842: when the loop ended without an answer of ITS OWN, 0 is stored
    only if the cell is still None. *)
-Inductive event := Call (id : nat) | Reply (id : nat) (o : outcome).
+Inductive event := Call (id : nat) | Reply (id : nat) (o : outcome)
+                 | Reset.   (* reset_all_metadata / reset_topic_metadata / reset_consumer_group_metadata
+                               (client.py:274-326; reset_all_metadata runs on every failed send, client.py:1367, and
+                               in close(), client.py:391): none of them touches _api_versions *)
 
 Record cstate := mkC { cell : vstate; waiting : list (nat * nat) }.     (* (call id, api_version_failures) *)
 
@@ -161,6 +165,7 @@ Definition step (s : cstate) (e : event) : cstate :=
                        (remove_call id (waiting s))          (* fix 276cfa2: client.py:833-837 *)
           end
       end
+  | Reset => s
   end.
 
 Definition run_events (discovery : bool) (evs : list event) : cstate := fold_left step evs (init_c discovery).
